@@ -55,10 +55,12 @@ def r18_1_2(ctx: Ctx) -> None:
         jobs = [txt(t) for n in walk_local(func) if isinstance(n, ast.Assign) and n.value in submit for t in n.targets]
         gets = [n for n in walk_local(func) if isinstance(n, ast.Assign) and isinstance(n.value, ast.Call)
                 and last_attr(n.value) == "get" and txt(n.value.func.value) in jobs]  # type: ignore[attr-defined]
-        rets = [r for r in walk_local(func) if isinstance(r, ast.Return) and r.value is not None
-                and not isinstance(r.value, ast.ListComp)]
-        ok = len(gets) == 1 and len(rets) == 1 and txt(rets[0].value) == txt(gets[0].targets[0])
+        from ..flow import fact_texts
         result_name = txt(gets[0].targets[0]) if gets else ""
+        all_rets = [r for r in walk_local(func) if isinstance(r, ast.Return) and r.value is not None]
+        shortcuts = [r for r in all_rets if "cpus == 1" in fact_texts(cfg, r)]
+        rets = [r for r in all_rets if r not in shortcuts]
+        ok = len(gets) == 1 and len(rets) >= 1 and all(txt(r.value) == result_name for r in rets)
         others = [v for v in bound_from(func, result_name) if v is not (gets[0].value if gets else None)]
         ctx.ob("R18.1", BASE, rets[0] if rets else func, qual, "returned value", ok and not others,
                "the value returned is exactly what get() delivered (no re-collection, filtering or reordering)",
@@ -73,18 +75,10 @@ def r18_1_2(ctx: Ctx) -> None:
             ctx.ob("R18.1", BASE, submit[0], qual, "submitted arguments", ok,
                    "the argument list is handed to the pool unchanged", form=txt(submit[0]))
         # one-CPU shortcut
-        shortcuts = [r for r in walk_local(func) if isinstance(r, ast.Return) and isinstance(r.value, ast.ListComp)]
         for sc in shortcuts:
-            comp = sc.value
-            gen = comp.generators[0]
-            ok = len(comp.generators) == 1 and not gen.ifs and txt(gen.iter) == "args" and \
-                isinstance(comp.elt, ast.Call) and txt(comp.elt.func) == "function" and \
-                len(comp.elt.args) == 1 and isinstance(comp.elt.args[0], ast.Starred) and \
-                txt(comp.elt.args[0].value) == txt(gen.target)
-            gs = guards(sc, stop=func)
-            ok = ok and any(txt(t) == "cpus == 1" and pol for t, pol in gs)
+            ok, form = _ordered_map(func, sc.value)
             ctx.ob("R18.1", BASE, sc, qual, "one-CPU shortcut", ok,
-                   "with one CPU the calls are made in-process, one per argument set, in argument order", form=txt(comp))
+                   "with one CPU the calls are made in-process, one per argument set, in argument order", form=form)
         # R18.2 failure surfaces
         tries = [n for n in walk_local(func) if isinstance(n, ast.Try)]
         handlers = [h for t in tries for h in t.handlers]
@@ -114,18 +108,20 @@ def r18_1_2(ctx: Ctx) -> None:
             for flag in flags:
                 inits = [v for v in bound_from(func, flag)]
                 only_bool = all(isinstance(v, ast.Constant) and isinstance(v.value, bool) for v in inits)
-                tests = [n for n in walk_local(func) if isinstance(n, ast.If) and txt(n.test) == flag
-                         and isinstance(n.body[-1], ast.Raise)]
-                if tests and only_bool:
-                    tn = cfg.n(tests[0])
-                    # every path from the handler to the normal exit passes the test, and leaves it by F only
-                    passes = not cfg.exists_path(hn, cfg.exit, avoid=[tn])
-                    no_reset = not any(isinstance(cfg.nodes[n].ast, ast.Assign) and txt(cfg.nodes[n].ast.targets[0]) == flag
-                                       and not (isinstance(cfg.nodes[n].ast.value, ast.Constant)
-                                                and cfg.nodes[n].ast.value.value is True)
-                                       for n in cfg.reach([hn], avoid=[tn]))
-                    ok = passes and no_reset
-                    form = f"{flag} = True ... if {flag}: raise"
+                if not only_bool:
+                    continue
+                # normal exits reachable from the handler: each must lie behind the test `flag is False`
+                after = cfg.reach([hn])
+                exits = [src for src, _ in cfg.pred[cfg.exit] if src in after]
+                guarded = bool(exits) and all(
+                    f"not {flag}" in fact_texts(cfg, cfg.nodes[src].ast) for src in exits if cfg.nodes[src].ast is not None)
+                no_reset = not any(isinstance(cfg.nodes[n].ast, ast.Assign) and txt(cfg.nodes[n].ast.targets[0]) == flag
+                                   and not (isinstance(cfg.nodes[n].ast.value, ast.Constant)
+                                            and cfg.nodes[n].ast.value.value is True)
+                                   for n in after)
+                if guarded and no_reset:
+                    ok = True
+                    form = f"{flag} = True in the handler; every normal exit afterwards is behind `not {flag}`"
             ctx.ob("R18.2", BASE, handler, qual, f"handler {txt(handler.type)}", ok,
                    "a handled timeout still ends in an error: the handler sets a flag that is tested-and-raised on every "
                    "path to the normal exit", form=form)
@@ -139,6 +135,37 @@ def r18_1_2(ctx: Ctx) -> None:
             ctx.ob("R18.2", BASE, rets[0], qual, "results assigned by get()", path is None,
                    "no path reaches the return without get() having delivered the results (other than through a handler "
                    "that ends in an error)", detail=cfg.describe_path(path) if path else "", form="")
+
+
+def _ordered_map(func: ast.AST, value: ast.AST):
+    """ is `value` the list [function(*a) for a in args] - as a comprehension or as the equivalent append loop? """
+    params = [a.arg for a in func.args.args]  # type: ignore[attr-defined]
+    if len(params) < 2:
+        return False, "unexpected signature"
+    fn_name, args_name = params[0], params[1]
+
+    def call_ok(call: ast.AST, target: ast.AST) -> bool:
+        return isinstance(call, ast.Call) and txt(call.func) == fn_name and len(call.args) == 1 and not call.keywords \
+            and isinstance(call.args[0], ast.Starred) and txt(call.args[0].value) == txt(target)
+    if isinstance(value, ast.ListComp):
+        gen = value.generators[0]
+        ok = len(value.generators) == 1 and not gen.ifs and txt(gen.iter) == args_name and call_ok(value.elt, gen.target)
+        return ok, txt(value)
+    if isinstance(value, ast.Name):
+        name = value.id
+        inits = bound_from(func, name)
+        loops = [n for n in walk_local(func) if isinstance(n, ast.For) and any(
+            isinstance(c, ast.Call) and isinstance(c.func, ast.Attribute) and txt(c.func.value) == name for c in ast.walk(n))]
+        mutations = [c for c in calls(func) if isinstance(c.func, ast.Attribute) and txt(c.func.value) == name]
+        ok = len(inits) == 1 and isinstance(inits[0], ast.List) and not inits[0].elts and len(loops) == 1 \
+            and len(mutations) == 1 and mutations[0].func.attr == "append" and len(mutations[0].args) == 1  # type: ignore
+        if ok:
+            loop = loops[0]
+            ok = txt(loop.iter) == args_name and len(loop.body) == 1 and isinstance(loop.body[0], ast.Expr) \
+                and loop.body[0].value is mutations[0] and not loop.orelse and call_ok(mutations[0].args[0], loop.target)
+            return ok, f"{name} = []; for {txt(loop.target)} in {txt(loop.iter)}: {txt(mutations[0])}"
+        return False, f"{name}: not an append loop over the argument list"
+    return False, txt(value)[:80]
 
 
 def r18_3(ctx: Ctx) -> None:
@@ -184,17 +211,17 @@ def r18_4(ctx: Ctx) -> None:
     reduce = ctx.fn(COLL, "_SectionedCDSTuple.__reduce__")
     params = [a.arg for a in new.args.args[1:]]
     required = len(params) - len(new.args.defaults)
-    rets = [r for r in walk_local(reduce) if isinstance(r, ast.Return)]
-    ok = len(rets) == 1 and isinstance(rets[0].value, ast.Tuple) and len(rets[0].value.elts) == 2 and \
-        isinstance(rets[0].value.elts[1], ast.Tuple)
-    if not ok:
-        ctx.cannot("R18.4", COLL, reduce, "_SectionedCDSTuple.__reduce__", "shape", "does not return (callable, (args...))")
-        return
-    target, args = rets[0].value.elts
     from ..cfg import CFG
     from ..flow import inline_reaching
     rcfg = CFG(reduce)
-    resolved = [inline_reaching(rcfg, rets[0], a) for a in args.elts]
+    rets = [r for r in walk_local(reduce) if isinstance(r, ast.Return)]
+    value = inline_reaching(rcfg, rets[0], rets[0].value) if len(rets) == 1 and rets[0].value is not None else None
+    ok = isinstance(value, ast.Tuple) and len(value.elts) == 2 and isinstance(value.elts[1], ast.Tuple)
+    if not ok:
+        ctx.cannot("R18.4", COLL, reduce, "_SectionedCDSTuple.__reduce__", "shape", "does not return (callable, (args...))")
+        return
+    target, args = value.elts
+    resolved = list(args.elts)
     names = [txt(a).replace("self.", "").lstrip("_") for a in resolved]
     for param, arg in zip(params, resolved):
         stored = isinstance(arg, ast.Attribute) and txt(arg.value) == "self" and arg.attr.lstrip("_") == param
